@@ -328,6 +328,16 @@ func scenarios(tier string, seed int64) []Scn {
 	// ---- thorough ----
 	var base []Scn
 	addb := func(s Scn) { base = append(base, s) }
+	// websocket client sessions and user ids that are (or look like) addresses, over budgets and loss classes
+	for _, b := range []int{1, 3, -1} {
+		for _, bs := range []string{"idle", "awaiting"} {
+			addb(Scn{Budget: b, Base: bs, NCalls: 2, WS: true, UserID: b != 1, RST: bs == "idle"})
+			addb(Scn{Budget: b, Base: bs, NCalls: 1, UserID: true, IDForm: "remote-addr", Hook: hooks[(b+3)%2]})
+			addb(Scn{Budget: b, Base: bs, NCalls: 1, UserID: true, IDForm: "ip-like", RST: true})
+		}
+		addb(Scn{Budget: b, Base: "idle", Losses: 3, WS: true})
+		addb(Scn{Budget: b, Base: "idle", Refuse: 1, Mode: "reject", WS: true, UserID: true, IDForm: "remote-addr"})
+	}
 	// every k of the request frame, all budgets; of the reply frame, budgets 1 and -1
 	for _, b := range budgets {
 		for k := 0; k <= c2s; k++ {
